@@ -6,6 +6,7 @@ import (
 	"bytes"
 	"fmt"
 	"net/http"
+	"os"
 	"strconv"
 	"strings"
 	"testing"
@@ -214,6 +215,12 @@ func c15Run(c c15in) func(w *World) []Violation {
 			}
 		}
 		// nothing left behind
+		if f := spillFiles(w); len(f) > 0 {
+			add("spill-file-left-behind-after-target-fault", fmt.Sprint(f))
+			for _, x := range f {
+				os.Remove(w.Dir + "/tmp/" + x)
+			}
+		}
 		if n := inflightResidue(w); n != 0 {
 			add("inflight-entry-left-behind", fmt.Sprintf("%d entries", n))
 		}
